@@ -16,7 +16,8 @@ from harness.common.extract import NotRecognised
 from harness.common.shrink import ddmin
 
 PROP = "C10"
-DRIVER_MODULES = ["PsutilModel.Model.C10Gen", "PsutilModel.Model.C10Front", "PsutilModel.Model.C10Conc", "PsutilModel.Spec.C10"]
+DRIVER_MODULES = ["PsutilModel.Model.C10Gen", "PsutilModel.Model.C10Front", "PsutilModel.Model.C10Conc",
+                  "PsutilModel.Model.C10Dict", "PsutilModel.Spec.C10"]
 FINDING_FORMS = "C10-forms-share-cache"
 NEEDS_EXT = True
 TRUSTED = [
@@ -217,6 +218,32 @@ def _strict_less(tree):
     return found[0]
 
 
+def _rk_accumulates(tree):
+    """Is the only statement of `run` that touches `reminder_keys` the call
+    `self.reminder_keys[name][key].add(remkey)`, sitting next to `self.reminders[name][remkey] += old_value` in the
+    body of the wrap test, with `remkey = (key, i)`? False when the set is assigned instead (seeded C10-3)."""
+    fn = extract.find_def(tree, "run", cls="_WrapNumbers")
+    uses = [n for n in ast.walk(fn) if isinstance(n, ast.Attribute) and n.attr == "reminder_keys"]
+    remkeys = [st for st in ast.walk(fn) if isinstance(st, ast.Assign) and len(st.targets) == 1
+               and extract.dotted(st.targets[0]) == "remkey"]
+    if len(remkeys) != 1 or extract.unparse(remkeys[0].value) != "(key, i)":
+        raise NotRecognised("remkey is not assigned once as (key, i)")
+    tests = [n for n in ast.walk(fn) if isinstance(n, ast.If) and isinstance(n.test, ast.Compare)
+             and {extract.dotted(n.test.left), extract.dotted(n.test.comparators[0])} == {"input_value", "old_value"}]
+    if len(tests) != 1 or tests[0].orelse:
+        raise NotRecognised("wrap test not found exactly once (without else)")
+    body = sorted(extract.unparse(b) for b in tests[0].body)
+    want = sorted(["self.reminders[name][remkey] += old_value", "self.reminder_keys[name][key].add(remkey)"])
+    if body == want and len(uses) == 1:
+        return True
+    assigned = [st for st in ast.walk(fn) if isinstance(st, (ast.Assign, ast.AugAssign))
+                and any(isinstance(x, ast.Attribute) and x.attr == "reminder_keys"
+                        for t in (st.targets if isinstance(st, ast.Assign) else [st.target]) for x in ast.walk(t))]
+    if assigned:
+        return False
+    raise NotRecognised("update of reminders / reminder_keys in run() not recognised: %s" % "; ".join(body))
+
+
 def facts(snap, F):
     init = extract.parse_module(snap, "__init__.py")
     common = extract.parse_module(snap, "_common.py")
@@ -267,6 +294,8 @@ def facts(snap, F):
               "the only call of _WrapNumbers.run is `_wn.run(...)` inside `with _wn.lock:` in wrap_numbers (one instance, one threading.Lock)")
     F.try_add("clearUnderLock", "Bool", lambda: extract.lean_bool(locks()[1]),
               "the bodies of _WrapNumbers.cache_clear and cache_info are a single `with self.lock:` block")
+    F.try_add("rkAccumulates", "Bool", lambda: extract.lean_bool(_rk_accumulates(common)),
+              "the only statement of run() touching reminder_keys is `self.reminder_keys[name][key].add(remkey)` next to `self.reminders[name][remkey] += old_value`, remkey = (key, i)")
 
 
 # ------------------------------------------------------------------------------ implementation side
@@ -315,6 +344,8 @@ class Impl:
         self.width = {"disk": len(getattr(self.plat, "sdiskio", self.ps._common.sdiskio)._fields),
                       "net": len(self.ps._common.snetio._fields)}
         self.fn = {"disk": self.ps.disk_io_counters, "net": self.ps.net_io_counters}
+        # the `name` strings of the cache slots, as the translator extracted them (the driver prints them)
+        self.names = ctx.driver().batch([{"op": "names"}])[0]
 
     def close(self):
         self.plat.disk_io_counters, self.plat.net_io_counters = self.orig
@@ -322,9 +353,25 @@ class Impl:
     def reset(self):
         self.ps._common.wrap_numbers.cache_clear()
 
+    def info(self):
+        """`wrap_numbers.cache_info()` in the driver's canonical form (dict order kept, sets sorted)."""
+        try:
+            cache, rems, keys = self.ps._common.wrap_numbers.cache_info()
+            return {"cache": [[n, [[k, [int(x) for x in v]] for k, v in d.items()]] for n, d in cache.items()],
+                    "reminders": [[n, [[k, int(i), int(v)] for (k, i), v in d.items()]] for n, d in rems.items()],
+                    "keys": [[n, [[k, sorted([p[0], int(p[1])] for p in ps)] for k, ps in d.items()]]
+                             for n, d in keys.items()]}
+        except Exception as e:  # noqa: BLE001 - an exception is an observable
+            return {"kind": "exc", "exc": type(e).__name__}
+
     def do(self, op):
         """Execute one op; return canonical outcome dict comparable with the driver's."""
         try:
+            if op["op"] == "wn":
+                # `_common.wrap_numbers(input_dict, name)` itself (family `ragged`: tuple widths the front ends
+                # never produce)
+                r = self.ps._common.wrap_numbers({k: tuple(v) for k, v in op["raw"]}, self.names[op["name"]])
+                return {"kind": "dict", "raw": [[k, [int(x) for x in v]] for k, v in r.items()]}
             if op["op"] == "call":
                 self.next_raw[op["name"]] = listing_of(op)
                 kw = {"nowrap": op["nowrap"]}
@@ -354,6 +401,8 @@ class Impl:
 
 
 def driver_line(op):
+    if op["op"] == "wn":
+        return {"op": "call", "name": op["name"], "nowrap": True, "raw": op["raw"]}
     if op["op"] == "call":
         return {"op": "fcall", "fn": op["name"], "nowrap": op["nowrap"], "perdev": not op.get("total", False),
                 "listing": listing_of(op)}
@@ -377,12 +426,19 @@ def floor_violation(impl_out, floor):
     return None
 
 
-def run_histories(ctx, impl, hists):
+def wants_info(h, i, every):
+    """is `cache_info()` compared after step i of history h? Always after the last step and after slot-level
+    (`wn`) steps; otherwise every `every`-th step (1 = all)."""
+    return i == len(h) - 1 or i % every == 0 or h[i]["op"] == "wn"
+
+
+def run_histories(ctx, impl, hists, info_every=None):
     """Return per history the list of (op, impl_out, model_out, spec_out, floor)."""
     lines = []
-    for h in hists:
+    info_every = info_every or [1] * len(hists)
+    for h, ev in zip(hists, info_every):
         lines.append({"op": "reset"})
-        lines.extend(driver_line(o) for o in h)
+        lines.extend(dict(driver_line(o), info=wants_info(h, i, ev)) for i, o in enumerate(h))
     drv = ctx.driver()
     outs = drv.batch(lines)
     res = []
@@ -396,9 +452,51 @@ def run_histories(ctx, impl, hists):
             i += 1
             if "bad" in m:
                 raise RuntimeError("driver rejected %r: %s" % (o, m))
-            rows.append((o, impl.do(o), m["model"], m["spec"], m.get("floor", [])))
+            out = impl.do(o)
+            rows.append(Row((o, out, m["model"], m["spec"], m.get("floor", [])),
+                            cmodel=m.get("cmodel"), info_impl=impl.info() if "info" in m else None,
+                            info_model=m.get("info"), info_spec=m.get("info_spec")))
         res.append(rows)
     return res, len(lines)
+
+
+class Row(tuple):
+    """(op, impl, model, spec, floor) + what the concrete-dict model and `cache_info()` gave at that step"""
+
+    def __new__(cls, t, **kw):
+        self = tuple.__new__(cls, t)
+        self.__dict__.update(kw)
+        return self
+
+
+def _norm_info(info):
+    """name order of the three dicts = order of first use: not compared (the model keeps a fixed slot order)"""
+    if "kind" in info:
+        return info
+    out = {k: sorted(v) for k, v in info.items()}
+    out["keys"] = sorted([n, [[k, sorted(ps)] for k, ps in d]] for n, d in info["keys"])
+    return out
+
+
+def _info_vs_spec(info, spec):
+    """None if `cache_info()` shows what the history alone determines (C10_cache_info_reflects), else a reason"""
+    if "kind" in info:
+        return "cache_info() raised %s" % info.get("exc")
+    want_cache = sorted(spec["cache"])
+    if sorted(info["cache"]) != want_cache:
+        return "cache != newest nowrap=True snapshot per name"
+    names = sorted(n for n, _ in want_cache)
+    if sorted(n for n, _ in info["reminders"]) != names or sorted(n for n, _ in info["keys"]) != names:
+        return "the three dicts do not hold the same names"
+    sums = {n: sorted(map(tuple, v)) for n, v in spec["sums"]}
+    for n, d in info["reminders"]:
+        if sorted((k, i, v) for k, i, v in d if v != 0) != sums[n]:
+            return "non-zero reminders of %s != wrap sums of the listed devices' current epochs" % n
+    for n, d in info["keys"]:
+        got = sorted((k, p[1]) for k, ps in d for p in ps)
+        if any(p[0] != k for k, ps in d for p in ps) or got != sorted((k, i) for k, i, _ in sums[n]):
+            return "reminder_keys of %s != support of reminders" % n
+    return None
 
 
 def mixes_forms(hist):
@@ -494,6 +592,39 @@ def gen_history(rng, impl, family):
         present[nm0] = set(keep) | {a, b}
         for _ in range(rng.randrange(2, 4)):
             call(nm0, total=False)
+    elif family == "dicts":
+        # aimed at the two reminder dicts: different fields of one device wrap in DIFFERENT calls, the device
+        # vanishes (alone or with all others) and comes back, then wraps again; per-device form only
+        cur = {d: [rng.randrange(50, 200) for _ in range(impl.width[nm0])] for d in DEVS[nm0][:ndev]}
+        call(nm0, total=False, raw=[[d, list(v)] for d, v in cur.items()])
+        for _ in range(n_ops + 2):
+            r = rng.random()
+            if r < 0.12:
+                call(nm0, total=False, raw=[])
+                continue
+            listed = [d for d in cur if rng.random() > 0.2] or list(cur)[:1]
+            for d in listed:
+                v = cur[d]
+                for i in rng.sample(range(len(v)), rng.randrange(0, 3)):
+                    v[i] = rng.randrange(0, v[i] + 1)          # goes backwards (or stays)
+                for i in range(len(v)):
+                    if rng.random() < 0.3:
+                        v[i] += rng.randrange(0, 5)
+            if r > 0.93:
+                h.append({"op": "clear", "name": nm0})
+            call(nm0, total=False, raw=[[d, list(cur[d])] for d in listed])
+    elif family == "ragged":
+        # `_common.wrap_numbers` itself with tuple widths that change from call to call (the front ends never
+        # produce these): IndexError in the middle of the loop leaves the reminders half updated and the cache old
+        keys = ["a", "b", "c"][:rng.randrange(1, 4)]
+        slot = rng.choice(["disk", "net", "diskper"])
+        for _ in range(n_ops + 2):
+            if rng.random() < 0.07:
+                h.append({"op": "clearall"})
+                continue
+            listed = [k for k in keys if rng.random() > 0.2] or keys[:1]
+            h.append({"op": "wn", "name": slot, "nowrap": True,
+                      "raw": [[k, [rng.randrange(0, 4) for _ in range(rng.randrange(1, 4))]] for k in listed]})
     elif family == "total":
         # system-wide form only: wraps, devices joining and leaving
         call(nm0, total=True)
@@ -532,7 +663,7 @@ def gen_history(rng, impl, family):
 
 
 FAMILIES = ["two_wraps", "reappear", "all_vanish", "clear_between", "alt_nowrap", "interleaved",
-            "new_device", "mixed", "long", "total", "forms", "rename"]
+            "new_device", "mixed", "long", "total", "forms", "rename", "dicts", "ragged"]
 
 
 def history_features(h):
@@ -600,13 +731,23 @@ def exhaustive_histories(impl, maxlen):
 def first_bad(rows):
     """(index, kind, detail) of the first step that disagrees: 'spec' (≠ history-defined specification),
     'floor' (a device that stayed listed went backwards: the property statement itself), 'model'."""
-    for i, (o, im, mo, sp, floor) in enumerate(rows):
+    for i, row in enumerate(rows):
+        o, im, mo, sp, floor = row
+        has_info = row.info_model is not None
+        if o["op"] == "wn":
+            # widths outside the property's statement: only the concrete-dict model speaks about them
+            if im != row.cmodel or _norm_info(row.info_impl) != _norm_info(row.info_model):
+                return i, "model", None
+            continue
         if im != sp:
             return i, "spec", None
         fv = floor_violation(im, floor)
         if fv is not None:
             return i, "floor", fv
-        if im != mo:
+        why = _info_vs_spec(row.info_impl, row.info_spec) if has_info and row.info_spec is not None else None
+        if why is not None:
+            return i, "info", why
+        if im != mo or im != row.cmodel or (has_info and _norm_info(row.info_impl) != _norm_info(row.info_model)):
             return i, "model", None
     return None
 
@@ -631,15 +772,34 @@ def compare(ctx, rows, res, source):
                      note="step %d: device %s stayed listed by the kernel, yet field %d went from %d down to %d "
                           "between two per-device nowrap=True calls" % (i, detail[0], detail[1], detail[3], detail[2]),
                      finding=FINDING_FORMS if known else None)
+    elif kind == "info":
+        res.disagree("spec", inp, rows[i].info_impl, rows[i].info_model, rows[i].info_spec,
+                     note="step %d: cache_info() after the step: %s" % (i, detail))
     else:
-        res.disagree("model", inp, im, mo, sp, note="step %d: implementation differs from the Lean model" % i)
+        row = rows[i]
+        if im == mo == row.cmodel:
+            res.disagree("model", inp, row.info_impl, row.info_model, row.info_spec,
+                         note="step %d: cache_info() differs from the concrete-dict Lean model" % i)
+        else:
+            res.disagree("model", inp, im, {"abstract": mo, "dicts": row.cmodel}, sp,
+                         note="step %d: implementation differs from the Lean model" % i)
     return True
 
 
 def corpus_histories(w):
     def c(nm, raw, total=False, nowrap=True):
         return {"op": "call", "name": nm, "nowrap": nowrap, "raw": [[k, [v] * w[nm]] for k, v in raw], "total": total}
+    def c2(nm, raw):
+        return {"op": "call", "name": nm, "nowrap": True, "total": False,
+                "raw": [[k, list(v) + [7] * (w[nm] - len(v))] for k, v in raw]}
     return [
+        # C10_reminder_keys_overwrite_counterexample: two fields wrap in two different calls, the device goes
+        # away and comes back: nothing of the old reminders may survive (seeded C10-3)
+        [c2("disk", [("a", [100, 100])]), c2("disk", [("a", [10, 100])]), c2("disk", [("a", [10, 10])]),
+         c2("disk", []), c2("disk", [("a", [5, 5])]), c2("disk", [("a", [5, 5])])],
+        [c2("net", [("a", [100, 100]), ("b", [1, 1])]), c2("net", [("a", [10, 100]), ("b", [1, 1])]),
+         c2("net", [("a", [10, 10]), ("b", [1, 1])]), c2("net", [("b", [1, 1])]),
+         c2("net", [("a", [5, 5]), ("b", [1, 1])]), c2("net", [("a", [5, 5]), ("b", [0, 1])])],
         # the lead L10 witness and a double wrap
         [c("disk", [("sda", 100)]), c("disk", []), c("disk", [("sda", 5)])],
         [c("disk", [("sda", 100)]), c("disk", [("sda", 10)]), c("disk", [("sda", 5)], total=True)],
@@ -673,7 +833,7 @@ def correspond(ctx, res):
     impl = Impl(ctx)
     try:
         res.rule = ("histories of public calls (both functions, per-device and system-wide form, nowrap True/False) "
-                    "and cache_clears from 12 clause-directed families (PRNG from VERIF_SEED) plus an exhaustive "
+                    "and cache_clears from 14 clause-directed families (PRNG from VERIF_SEED) plus an exhaustive "
                     "sweep of all short histories over one device, plus real threads replayed through the Lean "
                     "lock model; non-trivial = the history contains a wrap, a vanish/reappear, an empty snapshot "
                     "or a cache_clear; distinct = distinct op sequences")
@@ -695,7 +855,8 @@ def correspond(ctx, res):
         CH = 4000
         for a in range(0, len(hists), CH):
             chunk = hists[a:a + CH]
-            results, nl = run_histories(ctx, impl, chunk)
+            results, nl = run_histories(ctx, impl, chunk, [1 if tags[a + j] in INFO_ALWAYS else 4
+                                                           for j in range(len(chunk))])
             total_lines += nl
             for j, rows in enumerate(results):
                 tag = tags[a + j]
@@ -708,6 +869,7 @@ def correspond(ctx, res):
                 res.count("calls:system-wide", sum(1 for o in h if o["op"] == "call" and o.get("total")))
                 res.count("calls:per-device", sum(1 for o in h if o["op"] == "call" and not o.get("total")))
                 res.count("floor-checked devices", sum(len(r[4]) for r in rows))
+                res.count("cache_info() compared (steps)", sum(1 for r in rows if r.info_model is not None))
                 res.case(h, nontrivial=bool(feats & {"wrap", "vanish", "reappear", "empty", "clear"}),
                          sample={"family": tag, "history": h, "impl_last": rows[-1][1]} if (a + j) in (1, 2, 3, 5, 9) else None)
                 compare(ctx, rows, res, tag)
@@ -898,7 +1060,14 @@ def search(ctx, res, broken):
 def _fails(ctx, impl, hist):
     results, _ = run_histories(ctx, impl, [hist])
     bad = first_bad(results[0])
-    return bad is not None and bad[1] in ("spec", "floor")
+    return bad is not None and bad[1] in FAILING_KINDS
+
+
+# families whose every step is followed by a cache_info() comparison (the others: every 4th step and the last)
+INFO_ALWAYS = ("corpus", "dicts", "ragged", "exhaustive", "reappear", "rename")
+
+# kinds of first_bad that are violations of the specification (the others are model drift)
+FAILING_KINDS = ("spec", "floor", "info")
 
 
 def shrink(ctx, d):
@@ -910,11 +1079,13 @@ def shrink(ctx, d):
         small = ddmin(hist, lambda h: _fails(ctx, impl, h), max_tests=60)
         results, _ = run_histories(ctx, impl, [small])
         bad = first_bad(results[0])
-        if bad is not None and bad[1] in ("spec", "floor"):
+        if bad is not None and bad[1] in FAILING_KINDS:
             i = bad[0]
             o, im, mo, sp, floor = results[0][i]
             if bad[1] == "floor":
                 sp = {"kind": "at-least", "raw": floor}
+            if bad[1] == "info":
+                im, mo, sp = results[0][i].info_impl, results[0][i].info_model, results[0][i].info_spec
             return dict(d, input={"history": small[:i + 1], "source": "shrunk"}, impl=im, model=mo, spec=sp)
     finally:
         impl.close()
